@@ -99,10 +99,21 @@ fn check_one(
     let delta = ulp32(e32) as f64 * 0.5 + f64::MIN_POSITIVE;
     let band_end = 2.0 * (ulp32(total as f32).max(ulp32(e32)) as f64);
     let m = mscale(c, d, cfg.rep, cfg.rev, t as f64);
-    // (ii) phase
+    // (ii) phase. Next to the end instant two readings of "time since the delay exceeds cycle x
+    // (repeats+1)" are legitimate: the exact one and the one in f32 arithmetic (fl(t-delay) against
+    // fl(cycle x fl(repeats+1))). Where they agree the answer is demanded; where they differ either is.
     let near_end = total.is_finite() && (es - total).abs() <= band_end;
     let phase_ok = if near_end {
-        o.phase != Phase::NotStarted || es < 0.0
+        let n = cfg.rep.cycles().unwrap() as f32;
+        let ended_f32 = (t - cfg.delay) > cfg.cycle * n;
+        let ended_exact = es > total;
+        if es < 0.0 {
+            o.phase == Phase::NotStarted
+        } else if ended_f32 == ended_exact {
+            (o.phase == Phase::Ended) == ended_exact && o.phase != Phase::NotStarted
+        } else {
+            o.phase != Phase::NotStarted
+        }
     } else {
         o.phase == m.phase
     };
@@ -146,7 +157,16 @@ fn check_one(
                 // critical points: multiples of c (wrap / end of pass), and of c/2 when reversing
                 let step = if cfg.rev { c / 2.0 } else { c };
                 let crit = (lo / step).floor() != (hi / step).floor() || (lo / step).fract() == 0.0 || (hi / step).fract() == 0.0;
-                if crit {
+                if crit && near_end && total.is_finite() && (t - cfg.delay) < cfg.cycle * cfg.rep.cycles().unwrap() as f32 && es < total && cfg.rep.cycles().unwrap() >= 1 {
+                    // just before the end by both readings: the last pass is about to complete, the
+                    // position is next to its final value (1, or 0 when reversing), never wrapped to a new cycle
+                    class = "active-just-before-end";
+                    let want = if cfg.rev { 0.0 } else { 1.0 };
+                    if (o.pos as f64 - want).abs() > 4.0 * eta_abs + 1e-5 {
+                        acc.violation("c03:wrapped-at-end", format!("position {} one ulp before the end (t={t}) for {:?}; expected ~{want}", o.pos, cfg), case("no wrap before the end"));
+                        return "bad";
+                    }
+                } else if crit {
                     class = "active-boundary-band";
                     acc.count("inconclusive_band", 1);
                     // inside the band any position in [0,1] on the correct side is legitimate; for a
